@@ -15,6 +15,7 @@ Proof.
   rewrite (io_ch0 _ _ (invo_reach c wake st R) B0 s), app_nil_r in X. auto.
 Qed.
 
+Hypothesis SK : skipstop c = false.
 Hypothesis wake_spec : forall st w, wk st w = WParked -> (dist st <> [] \/ live st = false) -> wake st w = true.
 
 (* C08 exactly once: at quiescence with a live context, every message published while s was subscribed
@@ -24,12 +25,12 @@ Lemma exactly_once : forall st s m, wf_cfg c -> sigbuf c = true -> reach c wake 
   count_occ Nat.eq_dec (rcv st s) m = 1.
 Proof.
   intros st s m WF SB R Q LV Hn Ho.
-  destruct (quiescent_live c wake wake_spec st WF SB R Q LV) as (D & L & _).
+  destruct (quiescent_live c wake SK wake_spec st WF SB R Q LV) as (D & L & _).
   destruct (only_published_no_dup c wake st s R) as (_ & _ & ND).
   destruct (owed_delivered_or_pending st s m R LV Hn Ho) as [X|[X|(w & r & v & mu & p & Hw & _)]].
   - apply NoDup_count_occ' ; auto.
   - rewrite D, L in X. destruct X.
-  - exfalso. eapply busy_not_quiescent; eauto. apply (invl_reach c wake); auto.
+  - exfalso. eapply busy_not_quiescent; eauto. apply (invl_reach c wake SK); auto.
 Qed.
 
 End S.
@@ -39,10 +40,10 @@ End S.
    before Unsubscribe(s) was *called*.  API-level schedule (5 events): Subscribe returns; Publish returns
    (message accepted by the queue); Unsubscribe is called and processed; the worker takes the message
    and finds no subscriber; everything is idle - the message is lost. *)
-Definition queue_cfg : cfg := mkCfg 1 false 0 false None PBlock true.
+Definition queue_cfg : cfg := mkCfg 1 false 0 false None PBlock true 0 0 false.
 
 Definition inflight_statement : Prop :=
-  forall c wake st s m, lossless c -> wf_cfg c -> sigbuf c = true ->
+  forall c wake st s m, lossless c -> wf_cfg c -> sigbuf c = true -> skipstop c = false ->
     (forall st w, wk st w = WParked -> (dist st <> [] \/ live st = false) -> wake st w = true) ->
     reach c wake st -> quiescent c wake st -> live st = true ->
     In m (owed st s) -> In m (rcv st s).
@@ -70,8 +71,9 @@ Proof.
   intros S.
   assert (X : In 7 (rcv inflight_final 0)).
   { apply (S queue_cfg wake_exact inflight_final 0 7).
-    - split; auto.
+    - repeat split; auto.
     - intros _; discriminate.
+    - reflexivity.
     - reflexivity.
     - intros st w _ [H|H]; unfold wake_exact; [destruct (dist st); [congruence|reflexivity] | rewrite H; apply orb_true_r].
     - eapply run_reach; [constructor | apply inflight_run].
@@ -106,7 +108,7 @@ Qed.
    With the original unbuffered channel (sigbuf = false) a Stats call whose context ends between
    handing its closure to the loop and receiving the answer leaves the loop blocked in
    `signal <- stats` for ever: after Stop nothing can move and the loop never calls wg.Done. *)
-Definition unbuffered_cfg : cfg := mkCfg 1 false 0 false None PBlock false.
+Definition unbuffered_cfg : cfg := mkCfg 1 false 0 false None PBlock false 0 0 false.
 
 Definition stats_wedge_schedule : list event :=
   [ECall 0 OpStats; EStats1 0; ECallerCtx 0; ECallerAbort 0; ECancel; EWExit 0].
@@ -197,3 +199,39 @@ Proof.
   all: try (destruct w as [|w]; reflexivity).
   all: try (destruct s as [|[|s]]; reflexivity).
 Qed.
+
+(* ---------- C09: a worker must not return when Receive yields ErrCurrentOpSkip (defect repaired in
+   /repo).  With the original reaction (skipstop = true) the single worker of a broker over an
+   output-filtered queue is gone after the first rejected message; the next accepted message stays in
+   the buffer for ever although the context is live and nothing else can happen. *)
+Definition outfilter_orig_cfg : cfg := mkCfg 1 false 0 false None PBlock true 0 2 true.
+
+Definition outfilter_schedule : list event :=
+  [ECall 0 (OpSub 0); ESubSend 0; ECall 1 (OpPub 2); EPub 1; ELoopPush; ESkip 0;
+   ECall 1 (OpPub 3); EPub 1; ELoopPush].
+
+Definition outfilter_final : state := Eval vm_compute in
+  match run outfilter_orig_cfg wake_exact init outfilter_schedule with Some st => st | None => init end.
+
+Lemma output_filter_original_stalls :
+  run outfilter_orig_cfg wake_exact init outfilter_schedule = Some outfilter_final /\
+  quiescent outfilter_orig_cfg wake_exact outfilter_final /\
+  live outfilter_final = true /\ dist outfilter_final = [3] /\ rcv outfilter_final 0 = [].
+Proof.
+  repeat split; try (vm_compute; reflexivity).
+  intros e I. destruct e; try discriminate I; try reflexivity.
+  all: try (destruct k as [|[|k]]; reflexivity).
+  all: try (destruct w as [|w]; reflexivity).
+  all: try (destruct s as [|s]; reflexivity).
+Qed.
+
+(* the repaired reaction on the same inputs: the rejected message is skipped, the next one delivered *)
+Definition outfilter_cfg : cfg := mkCfg 1 false 0 false None PBlock true 0 2 false.
+
+Example output_filter_repaired :
+  match run outfilter_cfg wake_exact init
+          (outfilter_schedule ++ [ETake 0; ERangeNext 0 0; ESend 0 0; ERangeEnd 0; EEnd 0]) with
+  | Some st => rcv st 0 = [3] /\ skipped st = [2] /\ dist st = [] /\ acc st = [2; 3] /\ done st = [3]
+  | None => False
+  end.
+Proof. vm_compute. auto. Qed.
